@@ -3,12 +3,12 @@
 set -e
 HERE="$(cd "$(dirname "$0")" && pwd)"
 V="$HERE/.venv"
-if [ -x "$V/bin/python" ] && "$V/bin/python" -c "import z3, crosshair, experiment" 2>/dev/null; then
+if [ -x "$V/bin/python" ] && "$V/bin/python" -c "import z3, crosshair, cvc5, experiment" 2>/dev/null; then
     exit 0
 fi
 rm -rf "$V"
 /venv/bin/python -m venv "$V"
 SP="$V/lib/python3.12/site-packages"
 echo "import site; site.addsitedir('/venv/lib/python3.12/site-packages')" > "$SP/_base.pth"
-PIP_NO_INDEX=1 "$V/bin/pip" install -q --no-index --find-links /opt/veriftools/wheels crosshair-tool z3-solver >/dev/null
-"$V/bin/python" -c "import z3, crosshair, experiment; print('overlay venv ready', z3.get_version_string())"
+PIP_NO_INDEX=1 "$V/bin/pip" install -q --no-index --find-links /opt/veriftools/wheels crosshair-tool z3-solver cvc5 >/dev/null
+"$V/bin/python" -c "import z3, crosshair, cvc5, experiment; print('overlay venv ready', z3.get_version_string())"
